@@ -38,19 +38,24 @@ func init() {
 			"20 type bytes x body lengths 0..8 x 3 fills, signed; hostile RLP shapes) handed to decodePacket in process and to a ListenUDP socket. " +
 			"rlpx: PRNG key pairs and message sequences (codes 0..2^64-1, sizes 0..16 MiB-1, snappy on/off) between two real endpoints over net.Pipe/TCP; one fault (bit flip, drop, duplicate, insert, cut, frame replay/swap) at every byte offset of short streams and PRNG offsets of long ones, in handshake and frame phase; hostile peers before and after a legitimate handshake. " +
 			"aqua: every message code 0x00..0x11 and beyond with valid payloads, every truncation, byte-wise mutations, integer-limit queries and oversize messages after a valid status exchange. server: the same hostile clients against a listening p2p.Server. " +
-			"A case is non-trivial when both outcomes occurred in it (some inputs delivered and some rejected) or, for socket legs, the victim answered after the attack; distinct = hash of the case input.",
+			"Non-trivial: a discovery group in which some datagrams were delivered and some rejected; a socket or server batch whose victim still answered a signed ping / served a fresh peer after the attack; an honest RLPx session that delivered >= 2 messages; a fault session whose fault was applied after at least one hello had been delivered; an aqua session in which at least one message was tolerated and one dropped the peer. Distinct = hash of the case input (keys, base packet, message list).",
 		Legs: func(tier string) []fw.Leg {
+			// generous watchdogs: the machine may be shared with other checks
+			wd := 45 * time.Minute
+			if tier == "thorough" {
+				wd = 4 * time.Hour
+			}
 			legs := []fw.Leg{
-				{Name: "disc-decode", Variant: "plain", Batches: 16, Timeout: 40 * time.Minute},
-				{Name: "disc-udp", Variant: "plain", Batches: 8, Timeout: 40 * time.Minute},
-				{Name: "rlpx", Variant: "plain", Batches: 16, Timeout: 40 * time.Minute},
-				{Name: "aqua", Variant: "plain", Batches: 16, Timeout: 40 * time.Minute},
-				{Name: "server", Variant: "plain", Batches: 8, Timeout: 40 * time.Minute},
+				{Name: "disc-decode", Variant: "plain", Batches: 16, Timeout: wd},
+				{Name: "disc-udp", Variant: "plain", Batches: 8, Timeout: wd},
+				{Name: "rlpx", Variant: "plain", Batches: 16, Timeout: wd},
+				{Name: "aqua", Variant: "plain", Batches: 16, Timeout: wd},
+				{Name: "server", Variant: "plain", Batches: 8, Timeout: wd},
 			}
 			if tier == "thorough" {
 				legs = append(legs,
-					fw.Leg{Name: "rlpx-race", Variant: "race", Batches: 4, Timeout: 40 * time.Minute},
-					fw.Leg{Name: "server-race", Variant: "race", Batches: 4, Timeout: 40 * time.Minute},
+					fw.Leg{Name: "rlpx-race", Variant: "race", Batches: 4, Timeout: wd},
+					fw.Leg{Name: "server-race", Variant: "race", Batches: 4, Timeout: wd},
 				)
 			}
 			return filterLegs(legs)
